@@ -143,6 +143,8 @@ pub struct ClientModel {
     pub next_req: usize,
     /// bytes received on the current connection that do not yet form a complete frame
     pub rxbuf: Vec<u8>,
+    /// the not yet delivered remainder of a frame the peer started to send
+    pub partial_rest: Option<Vec<u8>>,
     pub write_error_armed: bool,
     /// future-style requests whose caller future is alive: (request id, handle)
     pub caller_futures: Vec<(usize, usize)>,
@@ -197,6 +199,7 @@ impl ClientModel {
             handles: vec![true; handles],
             next_req: 0,
             rxbuf: vec![],
+            partial_rest: None,
             write_error_armed: false,
             caller_futures: vec![],
             abandoned: vec![],
@@ -248,7 +251,7 @@ impl ClientModel {
                     v.push(Ev::ConnectFail);
                 }
                 Phase::InFlight { .. } => {
-                    if self.rxbuf.is_empty() {
+                    if self.partial_rest.is_none() {
                         v.push(Ev::ReplyOk);
                         v.push(Ev::ReplyException);
                         v.push(Ev::ReplyBad);
@@ -262,7 +265,7 @@ impl ClientModel {
                     v.push(Ev::Eof);
                 }
                 Phase::Idle => {
-                    if self.rxbuf.is_empty() {
+                    if self.partial_rest.is_none() {
                         v.push(Ev::ReplyStale(1));
                         v.push(Ev::BadHeader);
                     } else {
@@ -344,6 +347,7 @@ impl ClientModel {
     fn session_lost(&mut self, e: &mut Expected) {
         e.transport_dropped = true;
         self.rxbuf.clear();
+        self.partial_rest = None;
         self.write_error_armed = false;
         e.states.push(MState::WaitAfterDisconnect(self.retry_min));
         self.phase = Phase::WaitDisc(self.now + self.retry_min);
@@ -395,6 +399,7 @@ impl ClientModel {
                             Phase::Idle => {
                                 e.transport_dropped = true;
                                 self.rxbuf.clear();
+        self.partial_rest = None;
                                 self.write_error_armed = false;
                             }
                             Phase::Connecting | Phase::WaitFailed(_) | Phase::WaitDisc(_) => {}
@@ -572,6 +577,7 @@ impl ClientModel {
                 self.retry_cur = self.retry_min;
                 self.timeouts = 0;
                 self.rxbuf.clear();
+        self.partial_rest = None;
                 self.write_error_armed = false;
                 e.states.push(MState::Connected);
                 self.phase = Phase::Idle;
@@ -583,11 +589,20 @@ impl ClientModel {
             }
             Ev::ReplyOk | Ev::ReplyException | Ev::ReplyBad | Ev::ReplyPartial(_) | Ev::ReplyStale(_) | Ev::BadHeader => {
                 let bytes = self.delivery(ev).unwrap();
+                if let Ev::ReplyPartial(n) = ev {
+                    let full = self.delivery(&Ev::ReplyOk).unwrap();
+                    self.partial_rest = Some(full[*n..].to_vec());
+                }
                 self.receive(&mut e, &bytes);
+                if self.rxbuf.is_empty() {
+                    self.partial_rest = None;
+                }
                 return e;
             }
             Ev::ReplyRest => {
-                unreachable!("ReplyRest is resolved by the driver into concrete bytes")
+                let rest = self.partial_rest.take().expect("partial frame pending");
+                self.receive(&mut e, &rest);
+                return e;
             }
             Ev::ReadError => {
                 self.io_failure(&mut e, "ConnectionReset");
@@ -630,10 +645,4 @@ impl ClientModel {
         e
     }
 
-    /// deliver the remainder of a partially delivered frame (bytes chosen by the driver)
-    pub fn apply_rest(&mut self, bytes: &[u8]) -> Expected {
-        let mut e = Expected::default();
-        self.receive(&mut e, bytes);
-        e
-    }
 }
